@@ -256,6 +256,9 @@ class Evaluator:
         elif k == "continue":
             raise Continue()
         elif k == "switch":
+            if isinstance(s.get("var"), dict) and s["var"].get("id") is not None:
+                # switch (T x = init): the condition variable is initialised first
+                env[s["var"]["id"]] = self.eval(s["var"]["init"], env, this) if s["var"].get("init") is not None else None
             v = self.eval(s["c"], env, this)
             if isinstance(v, tuple) and v and v[0] == "enum":
                 v = v[2]
